@@ -50,7 +50,8 @@ SYSTEMS = [
     {"name": "nestedcrdtimpl", "go": "systems/nestedcrdtimpl/NestedCRDTImpl.go", "tla": "systems/nestedcrdtimpl/NestedCRDTImpl.tla",
      "constants": [], "env_processes": ["Node"], "unused_archetypes": ["ATestRig", "ATestBench"]},
     {"name": "pbkvs", "go": "systems/pbkvs/pbkvs.go", "tla": "systems/pbkvs/pbkvs.tla",
-     "constants": [("NUM_REPLICAS", "VNum 2"), ("NUM_CLIENTS", "VNum 1"), ("EXPLORE_FAIL", "VBool true"), ("DEBUG", "VBool false")]},
+     "constants": [("NUM_REPLICAS", "VNum 2"), ("NUM_CLIENTS", "VNum 1"), ("EXPLORE_FAIL", "VBool false"), ("DEBUG", "VBool false")],
+     "alt_constants": [[("NUM_REPLICAS", "VNum 2"), ("NUM_CLIENTS", "VNum 1"), ("EXPLORE_FAIL", "VBool true"), ("DEBUG", "VBool true")]]},
     {"name": "raftkvs", "go": "systems/raftkvs/raftkvs.go", "tla": "systems/raftkvs/raftkvs.tla",
      "constants": [("ExploreFail", "VBool true"), ("Debug", "VBool false"), ("NumServers", "VNum 2"), ("NumClients", "VNum 1"),
                    ("BufferSize", "VNum 2"), ("MaxTerm", "VNum 3"), ("MaxCommitIndex", "VNum 2"), ("MaxNodeFail", "VNum 1"),
@@ -302,12 +303,16 @@ def gen_system(sysd):
             rows.append('("%s", (%s, %s))' % (an, t, t))
         ptabs.append('("%s", (match lookup "%s" %s_tla_procs with Some (s, _) => s | None => None end, [%s]))'
                      % (p, p, name, "; ".join(rows)))
-    consts = "; ".join('("%s", %s)' % (c, v) for (c, v) in sysd.get("constants", []))
-    wk.append("Definition %s_W : wsys := Eval vm_compute in mkW %s_Dgo (canon_defs %s_tla_defs) [%s] %s_tla_init\n  [%s].\n"
-              % (name, name, name, consts, name, ";\n   ".join(ptabs)))
-    wk.append('Definition %s_walk_report (n : nat) (rnd : list N) : string :=\n'
-              '  let \'(mm, tr) := one_walk n %s_W (map N.to_nat rnd) in\n'
-              '  (cat (map snd mm) ++ "#@#TRACE " ++ sep "," tr ++ " #@#ENDTRACE")%%string.\n' % (name, name))
+    csets = [sysd.get("constants", [])] + sysd.get("alt_constants", [])
+    for ci, cs in enumerate(csets):
+        consts = "; ".join('("%s", %s)' % (c, v) for (c, v) in cs)
+        wk.append("Definition %s_W%d : wsys := Eval vm_compute in mkW %s_Dgo (canon_defs %s_tla_defs) [%s] %s_tla_init\n  [%s].\n"
+                  % (name, ci, name, name, consts, name, ";\n   ".join(ptabs)))
+    wk.append("Definition %s_W (i : nat) : wsys := nth i [%s] %s_W0.\n" % (
+        name, "; ".join("%s_W%d" % (name, ci) for ci in range(len(csets))), name))
+    wk.append('Definition %s_walk_report (n : nat) (focus : list string) (rnd : list N) : string :=\n'
+              '  let \'(mm, tr) := one_walk n (%s_W (Nat.modulo (N.to_nat (hd 0%%N rnd)) %d)) focus (map N.to_nat rnd) in\n'
+              '  (cat (map snd mm) ++ "#@#TRACE " ++ sep "," tr ++ " #@#ENDTRACE")%%string.\n' % (name, name, len(csets)))
     ch |= write_if_changed(os.path.join(GEN, name + "_walkdefs.v"), "".join(wk))
     info["changed"] = ch
     return info
@@ -448,7 +453,7 @@ def check_system(info, log):
         info["errors"].append("hygiene: forbidden construct in %s" % repr(bad[:3]))
 
 
-def run_walks(info, rnds, steps, log):
+def run_walks(info, rnds, steps, log, focus=()):
     """run the two regenerated models against each other on the walks given by the lists of naturals.
     -> (list of mismatch dicts, {label: committed steps}, error or None)"""
     name = info["name"]
@@ -462,8 +467,8 @@ def run_walks(info, rnds, steps, log):
             if rc != 0:
                 return [], {}, "walk tables of %s do not compile: %s" % (name, (o + e)[-800:])
     body = ("From PGV Require Import C02.Lang C02.Sem C02.Show C02.Walk %s.%s_walkdefs.\nOpen Scope string_scope.\n" % (GEN_NAME, name))
-    body += "Definition wall := Eval vm_compute in map (%s_walk_report %d) [%s]%%N.\nPrint wall.\n" % (
-        name, steps, ";\n ".join("[" + "; ".join(str(x) for x in r) + "]" for r in rnds))
+    body += "Definition wall := Eval vm_compute in map (%s_walk_report %d [%s]) [%s]%%N.\nPrint wall.\n" % (
+        name, steps, "; ".join('"%s"' % f for f in focus), ";\n ".join("[" + "; ".join(str(x) for x in r) + "]" for r in rnds))
     rc, out, err = vlib.coq_eval("C02_walk_%s_%d" % (name, os.getpid()), body, timeout=1200)
     if rc != 0:
         return [], {}, "walk evaluation failed: " + (out + err)[-800:]
